@@ -240,6 +240,7 @@ def run(tier, seed):  # pylint: disable=too-many-locals,too-many-statements,too-
             exercised_pairs.add(W.target_name(it["target"]) + "." + it["attrs"][s - 1])
     if len(exercised_pairs) < pairs_bound:
         raise MachineryError(f"{pairs_bound - len(exercised_pairs)} bound pairs were never assigned in a replayed behaviour")
+    viol += _census_violations(targets, cen, viol)
     states = res_i.distinct + res_o.distinct + res_a.distinct
     trans = res_i.generated + res_o.generated + res_a.generated
     per_cfg = {cfg["ideal"]: {"distinct": res_i.distinct, "generated": res_i.generated, "edges": n_edges_i,
@@ -302,6 +303,28 @@ def run(tier, seed):  # pylint: disable=too-many-locals,too-many-statements,too-
     return {"level": "model_checking", "violations": _dedupe(viol), "coverage": cov, "assumptions": assumptions}
 
 
+def _pair_name(t, attr):
+    definer = t["defined_in"].get(attr, t["cls"]).split(".")[-1]
+    return f"{definer}.{attr}@{t['kind']}"
+
+
+def _census_violations(targets, cen, viol):
+    """a value the live entity shows before the first close that the re-opened entity does not show (reported unless a
+    replayed behaviour already names the mechanism for that setter)"""
+    named = {v["signature"].split(":")[-1] for v in viol}
+    out = []
+    for t, c in zip(targets, cen):
+        for attr, text in c.get("reopen_differs", {}).items():
+            pair = _pair_name(t, attr)
+            if pair in named:
+                continue
+            out.append({"signature": f"lost-at-first-close:{pair}",
+                        "summary": f"{W.target_name(t)}.{attr}: {text}",
+                        "case": {"target": W.target_name(t), "attrs": [attr], "path": [], "graph": "track",
+                                 "variant": "census"}})
+    return out
+
+
 def _dedupe(viol):
     """keep every signature, at most 3 cases per signature (shortest behaviours first)"""
     by = collections.defaultdict(list)
@@ -321,6 +344,15 @@ def replay(doc):
     case = doc["case"]
     targets = {W.target_name(t): t for t in W.discover()}
     t = targets[case["target"]]
+    if case.get("variant") == "census":
+        from ..pool import _cleanup, scratch
+        scratch()
+        try:
+            c = R.census(t)
+        finally:
+            _cleanup(None)
+        v = [x for x in _census_violations([t], [c], []) if x["case"]["attrs"] == case["attrs"]]
+        return {"violations": v, "coverage": {"replayed": 1}}
     name = case.get("graph", "track")
     cfg = {"track": None, "track2": "AsBuiltQuick.cfg"}.get(name)
     if cfg is None:
